@@ -436,7 +436,7 @@ def pack_literal(spec: ValueSpec) -> Expression:
                     resolved_type_params=resolved_type_params,
                 )
                 with lines.indent(
-                    f"if value == {enum_type_name}.{literal_value.name}:"
+                    f"if value == {enum_type_name}[{literal_value.name!r}]:"
                 ):
                     lines.append(f"return {packer}")
             elif isinstance(
